@@ -382,6 +382,7 @@ def runEstimator (rest : String) : String :=
           | ["reset"] => (Estimator.step o w now .reset, now, outs)
           | ["finish"] => (Estimator.step o w now .finish, now, outs)
           | ["len", l] => (Estimator.step o w now (.setLen l.toNat?), now, outs)
+          | ["withelapsed", n] => ({ w with started := w.started - n.toNat! }, now, outs)   -- `with_elapsed`: only the start of the clock moves
           | ["q"] => (w, now, outs ++ [toString (perSecE w now).toBits])
           | ["eta"] => (w, now, outs ++ [toString (etaE w now)])
           | ["dur"] => (w, now, outs ++ [toString (Estimator.durationOf Estimator.floatOps (fun x => x == 0.0) secsToDurationNs w now)])
